@@ -37,6 +37,7 @@ fn run_line(line: &str) -> String {
         "crash" => k_crash::run(&f[1..]),
         "stack" => k_crash::run_stack(&f[1..]),
         "valop" => k_val::run(&f[1..]),
+        "valexpr" => k_val::run_expr(&f[1..]),
         "hist" => k_hist::run(&f[1..]),
         "histf" => k_histf::run(&f[1..]),
         "fop" => k_fop::run(&f[1..]),
@@ -84,6 +85,7 @@ fn main() {
                     "valdiff" => k_valdiff::gen(&mut rng, tier, i, &mut stats),
                     "fopx" => k_fop::gen_exhaustive(i + offset),
                     "valopx" => k_val::gen_exhaustive(i + offset),
+                    "valexpr" => k_val::gen_expr(&mut rng, tier, i, &mut stats),
                     "order" => k_order::gen(&mut rng, tier, i, &mut stats),
                     "orderx" => k_order::gen_exhaustive(i),
                     "track" => k_order::gen_track(&mut rng, tier, i, &mut stats),
@@ -130,6 +132,22 @@ fn main() {
         "threadchild" => {
             let code = k_threads::child(args[2].parse().unwrap(), args[3].parse().unwrap());
             std::process::exit(code);
+        }
+        // operator tables as the library builds them at run time (for the extractor)
+        "tables" => {
+            use exmex::MakeOperators;
+            let row = |tag: &str, name: &str, bin: Option<(i64, bool)>, un: bool, k: bool| {
+                println!("{}\t{}\t{}\t{}\t{}", tag, sym::hex(name), match bin { Some((p, c)) => format!("{},{}", p, if c { "c" } else { "n" }), None => "-".into() }, if un { "u" } else { "-" }, if k { "k" } else { "-" });
+            };
+            for o in exmex::ValOpsFactory::<i32, f64>::make() {
+                row("val", o.repr(), o.bin().ok().map(|b| (b.prio, b.is_commutative)), o.has_unary(), o.constant().is_some());
+            }
+            for o in exmex::FloatOpsFactory::<f64>::make() {
+                row("f64", o.repr(), o.bin().ok().map(|b| (b.prio, b.is_commutative)), o.has_unary(), o.constant().is_some());
+            }
+            for o in exmex::FloatOpsFactory::<f32>::make() {
+                row("f32", o.repr(), o.bin().ok().map(|b| (b.prio, b.is_commutative)), o.has_unary(), o.constant().is_some());
+            }
         }
         "count" => {
             // number of cases of an exhaustive kind
